@@ -35,7 +35,7 @@ var (
 	binA  = buildA()
 	binB  = buildB()
 	binC  = buildC()
-	bins  = [3][]byte{binA, binB, binC}
+	bins  = [nMods][]byte{binA, binB, binC, buildM(), buildN()}
 	bgctx = context.Background()
 )
 
@@ -159,6 +159,46 @@ func buildC() []byte {
 	return m.Encode()
 }
 
+// lastPageAddr emits: mode(local 0) != 0 ? (memory.size-1)*65536+100 : 100
+func lastPageAddr(a *wb.Asm) *wb.Asm {
+	return a.LocalGet(0).If(wb.I32).MemorySize().I32Const(1).Op(0x6b).I32Const(16).Op(0x74).I32Const(100).Op(0x6a).Else().I32Const(100).End()
+}
+
+// buildM: defines and exports a growable memory (1..3 pages; default capacity, so growth reallocates the buffer) and
+// ld(addr); ld0(mode) loads from the first / last page as M itself sees the memory.
+func buildM() []byte {
+	m := &wb.Module{}
+	m.Mem = &wb.Limits{Min: 1, Max: 3, HasMax: true}
+	m.Datas = []wb.Data{{Offset: wb.CI32(100), Bytes: []byte{0x11, 0x11, 0, 0}}}
+	m.ExportFunc("ld", m.AddFunc(i32, i32, nil, (&wb.Asm{}).LocalGet(0).Mem(0x28, 2, 0).B))
+	m.ExportFunc("ld0", m.AddFunc(i32, i32, nil, lastPageAddr(&wb.Asm{}).Mem(0x28, 2, 0).B))
+	m.Exports = append(m.Exports, wb.Export{Name: "mem", Kind: wb.KindMemory, Idx: 0})
+	nameExports(m)
+	return m.Encode()
+}
+
+// buildN: imports M's memory and M.ld; grows the memory, writes into it, reads it itself (rd) and through M's
+// function reached by import (call_ld) and by table slot (call_ld_t).
+func buildN() []byte {
+	m := &wb.Module{}
+	ld := m.ImportFunc("M", "ld", i32, i32)
+	m.Imports = append(m.Imports, wb.Import{Module: "M", Name: "mem", Kind: wb.KindMemory, Mem: wb.Limits{Min: 1, Max: 3, HasMax: true}})
+	t0 := m.Type(i32, i32)
+	m.Tables = []wb.Table{{Elem: wb.FuncRef, Lim: wb.Limits{Min: 1, Max: 1, HasMax: true}}}
+	m.Elems = []wb.Elem{{Mode: 0, TableIdx: 0, Offset: wb.CI32(0), Funcs: []uint32{ld}}}
+	m.ExportFunc("call_ld", m.AddFunc(i32, i32, nil, lastPageAddr(&wb.Asm{}).Call(ld).B))
+	m.ExportFunc("call_ld_t", m.AddFunc(i32, i32, nil, lastPageAddr(&wb.Asm{}).I32Const(0).CallIndirect(t0, 0).B))
+	m.ExportFunc("rd", m.AddFunc(i32, i32, nil, lastPageAddr(&wb.Asm{}).Mem(0x28, 2, 0).B))
+	m.ExportFunc("grow", m.AddFunc(nil, i32, nil, (&wb.Asm{}).I32Const(1).MemoryGrow().B))
+	// wr(): mem[100] = 0x2200+size ; mem[last page + 100] = 0x3300+size  (local 0 is used as the mode of lastPageAddr)
+	wr := (&wb.Asm{}).I32Const(100).I32Const(0x2200).MemorySize().Op(0x6a).Mem(0x36, 2, 0)
+	wr.I32Const(1).LocalSet(0)
+	lastPageAddr(wr).I32Const(0x3300).MemorySize().Op(0x6a).Mem(0x36, 2, 0)
+	m.ExportFunc("wr", m.AddFunc(nil, nil, []byte{wb.I32}, wr.B))
+	nameExports(m)
+	return m.Encode()
+}
+
 const valD = 404
 
 // buildD: imports A.tab, ACTIVE element segment A.tab[0] = d, and then fails to instantiate in the given way.
@@ -231,10 +271,12 @@ func freshBin(n int) []byte {
 
 // probes per module: exported functions (mode i32) -> i32; every probe is called with mode 0 (value) and mode 1 (the
 // function finally reached traps: the FULL error text, wasm stack trace included, must equal the twin's).
-var probeFns = [3][]string{
+var probeFns = [nMods][]string{
 	{"g", "call_t", "call_glob"},
 	{"k", "call_g", "call_at", "call_pt", "call_glob"},
 	{"c", "call_pt"},
+	{"ld0"},                        // M: mode 0 = address 100, mode 1 = offset 100 of the last page (as M sees the size)
+	{"rd", "call_ld", "call_ld_t"}, // N: own load, M.ld through the import, M.ld through N's table slot
 }
 
 // slots a call site reads (for classification)
@@ -251,8 +293,8 @@ type world struct {
 	eng       int
 	cache     wazero.CompilationCache
 	rt        wazero.Runtime
-	comp      [3]wazero.CompiledModule
-	inst      [3]api.Module
+	comp      [nMods]wazero.CompiledModule
+	inst      [nMods]api.Module
 	fresh     []api.Module
 	failC     [nFailKinds]wazero.CompiledModule // kept compiled modules of D (never closed, never dropped)
 	fill      [nFillers]wazero.CompiledModule   // filler compiled modules (world under test only)
@@ -275,7 +317,7 @@ func rtConfig(eng int) wazero.RuntimeConfig {
 // Code segments are mmap'd monotonically in a fresh process, so whichever direction the kernel uses, in both orders a
 // live module that is reachable through call_indirect from a non-importer (A or C) has the highest code address and
 // the fillers lie in the middle of wazevo's address-sorted module list.
-func newWorld(test bool, eng int, noCache bool, need [3]bool, order int) *world {
+func newWorld(test bool, eng int, noCache bool, need [nMods]bool, order int) *world {
 	w := &world{test: test, eng: eng, pending: -1}
 	cfg := rtConfig(eng)
 	if !noCache {
@@ -335,6 +377,8 @@ func newWorld(test bool, eng int, noCache bool, need [3]bool, order int) *world 
 		compile(mB)
 		compile(mA)
 	}
+	compile(mM)
+	compile(mN)
 	return w
 }
 
@@ -499,6 +543,21 @@ func (w *world) do(o op) (out string) {
 	case kGC:
 		w.collect()
 		return "ok"
+	case kGrowGuest:
+		_, out := w.call(mN, "grow")
+		return out
+	case kGrowHost:
+		h := w.inst[mN]
+		if h == nil {
+			h = w.inst[mM]
+		}
+		if _, ok := h.Memory().Grow(1); !ok {
+			return "err:api.Memory.Grow(1) refused"
+		}
+		return "ok"
+	case kMemWrite:
+		_, out := w.call(mN, "wr")
+		return out
 	case kCloseFiller:
 		if w.fill[o.X] == nil {
 			return "ok" // the twin has no fillers
